@@ -57,8 +57,8 @@ theorem pass_range_growth (passes : Array PassT) (c : Ctx) (lo hi fuel : Nat) (c
     c'.seg.numGlyphs ≤ c.seg.numGlyphs * 64 ∨ c'.seg.numGlyphs = c.seg.numGlyphs := runRange_growth passes c lo hi fuel c' h hpos
 
 /-- the same for a call of `Silf::runGraphite` that contains the bidi step -/
-theorem silf_call_growth (passes : Array PassT) (bPass : Nat) (c : Ctx) (lo hi : Nat) (dobidi : Bool) (fuel : Nat) (c' : Ctx)
-    (h : runPhase passes bPass c lo hi dobidi fuel = .ok (some c')) (hpos : 0 ≤ c.seg.numGlyphs) :
+theorem silf_call_growth (passes : Array PassT) (bPass : Nat) (c : Ctx) (lo hi : Nat) (dobidi : Bool) (fuel aMirror : Nat) (c' : Ctx)
+    (h : runPhase passes bPass c lo hi dobidi fuel aMirror = .ok (some c')) (hpos : 0 ≤ c.seg.numGlyphs) :
     c'.seg.numGlyphs ≤ c.seg.numGlyphs * 64 ∨ c'.seg.numGlyphs = c.seg.numGlyphs := runPhase_growth passes bPass c lo hi dobidi fuel c' h hpos
 
 /-- running code consumes its instruction list: the loop is defined by recursion on it (stated for the record: after the
